@@ -496,6 +496,7 @@ func (k msgServer) UpdateConsumer(goCtx context.Context, msg *types.MsgUpdateCon
 		return &resp, errorsmod.Wrapf(ccvtypes.ErrInvalidConsumerState, "cannot get consumer chain ID: %s", err.Error())
 	}
 
+	chainIdUpdated := false
 	// We only validate and use `NewChainId` if it is not empty (because `NewChainId` is an optional argument)
 	// or `NewChainId` is different from the current chain id of the consumer chain.
 	if strings.TrimSpace(msg.NewChainId) != "" && msg.NewChainId != chainId {
@@ -506,6 +507,7 @@ func (k msgServer) UpdateConsumer(goCtx context.Context, msg *types.MsgUpdateCon
 		if k.IsConsumerPrelaunched(ctx, consumerId) {
 			chainId = msg.NewChainId
 			k.SetConsumerChainId(ctx, consumerId, chainId)
+			chainIdUpdated = true
 		} else {
 			// the chain id cannot be updated if the chain is NOT in a prelaunched (i.e., registered or initialized) phase
 			return &resp, errorsmod.Wrapf(types.ErrInvalidPhase, "cannot update chain id of a non-prelaunched chain: %s", k.GetConsumerPhase(ctx, consumerId))
@@ -575,6 +577,13 @@ func (k msgServer) UpdateConsumer(goCtx context.Context, msg *types.MsgUpdateCon
 		if err = k.Keeper.SetConsumerInitializationParameters(ctx, msg.ConsumerId, *msg.InitializationParameters); err != nil {
 			return &resp, errorsmod.Wrapf(types.ErrInvalidConsumerInitializationParameters,
 				"cannot set consumer initialization parameters: %s", err.Error())
+		}
+	} else if chainIdUpdated {
+		// the stored initial height has to match the revision of the new chain id,
+		// otherwise new initialization parameters have to be provided together with the new chain id
+		if err = types.ValidateInitialHeight(previousInitializationParameters.InitialHeight, chainId); err != nil {
+			return &resp, errorsmod.Wrapf(types.ErrInvalidConsumerInitializationParameters,
+				"cannot update chain id without updating the initialization parameters: %s", err.Error())
 		}
 	}
 
